@@ -1,3 +1,77 @@
-From MW Require Import Num.
-Theorem placeholder : True. Proof. exact I. Qed.
-Print Assumptions placeholder.
+(* C08 — Outputs always range over exactly the current arms, one result per context.
+
+   FULL STATEMENT (every policy combination): at every state reachable by any history of add_arm,
+   remove_arm, fit, partial_fit, warm_start and queries, predict returns a member of the current arm list,
+   predict_expectations returns a dictionary whose keys are exactly the current arms in arm-list order,
+   a removed arm never appears again, an added arm is present immediately, and m > 1 rows give a list
+   of m results, one row / no contexts a single result.
+
+   PROVED HERE:
+   * the arm-list clauses (added arm present immediately and last, removed arm gone, rejected calls
+     keep the list) for EVERY policy combination of the model;
+   * the key / membership / shape clauses for every bandit with a context-free learning policy and no
+     neighbourhood policy (theorems named ..._partial): for every history, every generator that answers
+     with the requested number of values, every label type with decidable equality.
+   MISSING in the partial theorems: the same invariant for linear, Radius/KNearest/LSH, Clusters and
+   TreeBandit states (for those the clause is covered by the correspondence run only). *)
+From Coq Require Import List ZArith Bool QArith Qcanon.
+From MW Require Import Num Assoc Rng CF CFInv CFClean Mab FacadeCF FacadeArms QcInst.
+Import ListNotations.
+
+Theorem C08_invariant_on_every_history_partial :
+  forall (R A G : Type) (N : Num R) (aeqb : A -> A -> bool) (RG : RngOps R G),
+  (forall x y : A, aeqb x y = true <-> x = y) ->
+  forall (ops : list op) (m : mab), rng_lengths_ok RG -> is_cf m -> mab_inv N m ->
+  is_cf (state_after N aeqb RG m ops) /\ mab_inv N (state_after N aeqb RG m ops).
+Proof. exact @run_preserves_inv. Qed.
+Print Assumptions C08_invariant_on_every_history_partial.
+
+Theorem C08_constructor_establishes_invariant :
+  forall (R A G : Type) (N : Num R) (k : cfkind) (hp : R) (bz : option (A -> R -> R)) (arms : list A) (g : G),
+  NoDup arms -> mab_inv N {| m_imp := ICf (cf_init N k hp bz arms); m_fitted := false; m_rng := g |}.
+Proof. exact @init_inv. Qed.
+Print Assumptions C08_constructor_establishes_invariant.
+
+Theorem C08_query_results_range_over_current_arms_partial :
+  forall (R A G : Type) (N : Num R) (aeqb : A -> A -> bool) (RG : RngOps R G) (m : mab)
+         (cx : option (list (list R))) (orc : oracle),
+  rng_lengths_ok RG -> is_cf m -> mab_inv N m ->
+  out_wf (m_arms m) (ctx_len cx) (snd (step N aeqb RG m (Predict cx orc))) /\
+  out_wf (m_arms m) (ctx_len cx) (snd (step N aeqb RG m (PredictExp cx orc))) /\
+  m_arms (fst (step N aeqb RG m (Predict cx orc))) = m_arms m /\
+  m_arms (fst (step N aeqb RG m (PredictExp cx orc))) = m_arms m.
+Proof. exact @query_outputs_wf. Qed.
+Print Assumptions C08_query_results_range_over_current_arms_partial.
+
+Theorem C08_added_arm_present_immediately :
+  forall (R A G : Type) (N : Num R) (aeqb : A -> A -> bool) (RG : RngOps R G),
+  (forall x y : A, aeqb x y = true <-> x = y) ->
+  forall (m : mab) (a : A) (bz : option (A -> R -> R)),
+  snd (step N aeqb RG m (AddArm a bz)) = ODone ->
+  ~ In a (m_arms m) /\ m_arms (fst (step N aeqb RG m (AddArm a bz))) = m_arms m ++ [a].
+Proof. exact @add_arm_arms. Qed.
+Print Assumptions C08_added_arm_present_immediately.
+
+Theorem C08_removed_arm_never_listed :
+  forall (R A G : Type) (N : Num R) (aeqb : A -> A -> bool) (RG : RngOps R G),
+  (forall x y : A, aeqb x y = true <-> x = y) ->
+  forall (m : mab) (a : A), NoDup (m_arms m) -> snd (step N aeqb RG m (RemoveArm a)) = ODone ->
+  ~ In a (m_arms (fst (step N aeqb RG m (RemoveArm a)))).
+Proof. exact @removed_arm_gone. Qed.
+Print Assumptions C08_removed_arm_never_listed.
+
+(* non-vacuity: a concrete UCB1 bandit over exact rationals satisfies the hypotheses, and a concrete
+   history (train, remove, re-add, query with three rows) produces well-formed results *)
+Definition ex_m0 : @mab Qc Z nat :=
+  {| m_imp := ICf (cf_init QcNum KUcb 1%Qc None [3; 1; 2]%Z); m_fitted := false; m_rng := 0%nat |}.
+Definition ex_orc : @oracle Qc Z := mkOracle [] [] [] (fun _ _ => 0%nat) [].
+Definition ex_ops : list (@op Qc Z) :=
+  [Fit [3; 1; 1]%Z [1; 0; 1]%Qc None ex_orc; RemoveArm 1%Z; AddArm 7%Z None; AddArm 1%Z None;
+   PartialFit [7]%Z [1]%Qc None ex_orc].
+Example C08_hypotheses_satisfiable :
+  rng_lengths_ok ToyRng /\ is_cf ex_m0 /\ mab_inv QcNum ex_m0 /\
+  m_arms (state_after QcNum Z.eqb ToyRng ex_m0 ex_ops) = [3; 2; 7; 1]%Z.
+Proof.
+  split; [exact toy_rng_lengths_ok|]. split; [eexists; reflexivity|].
+  split; [apply init_inv; repeat constructor; simpl; intuition discriminate | vm_compute; reflexivity].
+Qed.
